@@ -89,6 +89,44 @@ def run(repo, rep, tier):
               "${...} (else 'default' would write the expression's source "
               "instead of its value)", construct="default-interpolated",
               where=L.where(cn_, defs_[0].lineno) if defs_ else L.where(cn_))
+    # the ';' of every entity the decoder recognises is protected by the
+    # splitter: the body classes and lengths of tal.ENTITY_RE cover those of
+    # utils.entity_re (&frac12; &sup2; &#x3C; have digits in their bodies)
+    from .. import rx
+    def bodies(mod, name):
+        rc = repo.const(mod, name)
+        pat = rc.pattern if isinstance(rc.pattern, str) else \
+            rc.pattern.decode("latin-1")
+        tree = rx.parse(pat, rc.flags)
+        out = []
+        def walk(items):
+            for op, av in items:
+                if op is rx.C.BRANCH:
+                    alts = [list(a) for a in av[1]]
+                    if all(len(a) == 1 and a[0][0] in (
+                            rx.C.MAX_REPEAT, rx.C.MIN_REPEAT) for a in alts):
+                        for a in alts:
+                            out.append((rx.all_chars(a[0][1][2]),
+                                        a[0][1][0], a[0][1][1]))
+                    for a in av[1]:
+                        walk(a)
+                elif op is rx.C.SUBPATTERN:
+                    walk(av[3])
+                elif op in (rx.C.MAX_REPEAT, rx.C.MIN_REPEAT):
+                    walk(av[2])
+        walk(tree)
+        return out
+    dec_b = bodies("chameleon.utils", "entity_re")
+    spl_b = bodies("chameleon.tal", "ENTITY_RE")
+    uncovered = [d for d in dec_b if not any(
+        d[0] <= s_[0] and s_[1] <= d[1] and d[2] <= s_[2] for s_ in spl_b)]
+    rep.check(bool(dec_b) and bool(spl_b) and not uncovered, "R07.6",
+              "chameleon.tal.ENTITY_RE", "every entity body the decoder "
+              "accepts (character class and length of each alternative of "
+              "utils.entity_re) is accepted by the pattern that protects "
+              "its ';' from the statement splitter",
+              construct="entity-protect-covers-decode",
+              detail="decoder %s, splitter %s" % (dec_b, spl_b))
     # the table of HTML boolean attributes is a list of single words
     nt, glued = L.glued_words(repo, ("chameleon.zpt.template",
                                      "chameleon.zpt.program"))
@@ -110,6 +148,7 @@ def run(repo, rep, tier):
     from . import c02
     L.borrow(repo, rep, "R07.4", "C02", lambda r, p: c02._quote_paths(
         r, p, tier), ("BAD", "class-missing"), minimum=3)
+    L.state_rule(repo, rep)
 
 
 # ---------------------------------------------------------------------------
